@@ -54,6 +54,13 @@ def make (c):
         g ['r']  = g ['r'] * s
     for fd in spec ['feeds']:
         fd ['at'] = [x * s for x in fd ['at']]
+    # objects numbered by the user: in any order, with gaps (the listing shows them sorted by their numbers and names
+    # them by these numbers everywhere)
+    rt = np.random.default_rng ([c ['seed'], 194, c ['i']])
+    if rt.random () < 0.4 and not any (g.get ('taper') for g in spec ['geo']):
+        ts = [int (x) for x in rt.choice (np.arange (1, 30), size = len (spec ['geo']), replace = False)]
+        for g, t in zip (spec ['geo'], ts):
+            g ['tag'] = t
     gen.add_sources (rng, spec, nmax = 3)
     for sr in spec ['src']:
         k = 10 ** rng.uniform (-10, 10) if rng.random () < 0.6 else 1.0
@@ -236,6 +243,29 @@ def check_model (spec):
         J.tok ('objects.r', ro ['r'], g.r_orig)
         J.tok ('objects.nseg', ro ['nseg'], g.n_segments, integer = True)
         J.tok ('objects.tag', ro ['tag'], g.tag, integer = True)
+        # END CONNECTION: minus the object's own number for an end on the ground plane, 0 for a free end, else the
+        # number of an object defined before it that has an end there (negative when the two run against each other)
+        tol_c = 1e-3 * min (float (sg.seg_len) for x in m.geo for sg in x.segments)
+        def end_pt (x, e):
+            return np.asarray (x.segments [0].p1 if e == 0 else x.segments [-1].p2, float)
+        for e, key in ((0, 'ltag'), (1, 'rtag')):
+            try:
+                val = int (ro [key])
+            except ValueError:
+                bad ('objects.conn', 'object %s: END CONNECTION %r is not a whole number' % (g.tag, ro [key]))
+                continue
+            P = end_pt (g, e)
+            # (as in the original program an end is listed as connected to objects defined before it - or to its own other end)
+            near = [x.tag for x in m.geo for e2 in (0, 1) if (x.tag < g.tag or (x is g and e2 != e)) and np.linalg.norm (end_pt (x, e2) - P) <= 1.05 * tol_c]
+            J.n += 1
+            if m.media is not None and abs (P [2]) < tol_c and g.is_ground [e]:
+                if val != -g.tag:
+                    bad ('objects.conn', 'object %s: end %d lies on the ground plane, END CONNECTION is %d instead of %d' % (g.tag, e + 1, val, -g.tag))
+            elif not near:
+                if val != 0:
+                    bad ('objects.conn', 'object %s: end %d meets no end of an earlier object, END CONNECTION is %d' % (g.tag, e + 1, val))
+            elif abs (val) not in near:
+                bad ('objects.conn', 'object %s: end %d meets objects %s, END CONNECTION is %d' % (g.tag, e + 1, sorted (set (near)), val))
     # ---- geometry table: one row per pulse in its object's block
     if len (rep ['geometry']) != len (m.geo):
         bad ('geometry-blocks', '%d geometry blocks for %d objects' % (len (rep ['geometry']), len (m.geo)))
